@@ -312,6 +312,7 @@ void orc_c19_delivery(Delivery &d) {
         char key[96];
         snprintf(key, sizeof key, "%d|%d", ti, e.sender_slot);
         int got = ++r.sys_received[key];
+        sim::tr("sysmsg", d.slot, ti, e.sender_slot);
         if (ti == 2) {
             // ticks: no more often than the configured period
             if (e.sender) VIOL("C19", "C19:tick-with-sender", "a tick notification names a sender");
